@@ -165,7 +165,8 @@ func Cat(parts ...[]byte) []byte {
 }
 
 // BoundaryLens are the payload lengths the quick tier always covers.
-var BoundaryLens = []int{1, 2, 3, 4, 5, 6, 7, 8, 9, 10, 19, 20, 21, 22, 25, 26, 255, 256, 257, 511, 512, 513, 1021, 1022, 1023}
+// (211, 467, 723, 979: the low byte of the length is the start byte 0xD3)
+var BoundaryLens = []int{1, 2, 3, 4, 5, 6, 7, 8, 9, 10, 19, 20, 21, 22, 25, 26, 211, 255, 256, 257, 467, 511, 512, 513, 723, 979, 1021, 1022, 1023}
 
 // Lens returns the payload lengths for a tier: all of 1..1023 or the boundaries plus a seeded sample.
 func Lens(rng *rand.Rand, thorough bool, extra int) []int {
@@ -242,4 +243,19 @@ func Corrupt(rng *rand.Rand, f []byte, kind int) ([]byte, string) {
 		}
 		return c, fmt.Sprintf("ones %d+%d", s, n)
 	}
+}
+
+// FrameWithStartByteAt returns a valid frame in which byte number pos (2..) of the frame is 0xD3:
+// pos 2 is the low byte of the length (payload lengths 211, 467, 723, 979), pos 3 and 4 the type bytes, later
+// positions payload bytes.  hi selects the high length bits for pos 2.
+func FrameWithStartByteAt(rng *rand.Rand, pos, hi int) []byte {
+	if pos == 2 {
+		plen := (hi&3)<<8 | 0xd3
+		return tr.Frame(Payload(rng, TypeClass(rng, rng.Intn(30)), plen, 0))
+	}
+	plen := pos - 3 + 1 + rng.Intn(24)
+	p := make([]byte, plen)
+	rng.Read(p)
+	p[pos-3] = 0xd3
+	return tr.Frame(p)
 }
